@@ -72,6 +72,8 @@ func (p *Prog) constTables(roots []*ssa.Function, keyT, elemT string) []constTab
 					seenFn[g] = true
 					if t, ok := p.switchTable(g, keyT, elemT); ok {
 						out = append(out, t)
+					} else if t, ok := p.indexedTableFunc(g, keyT, elemT); ok {
+						out = append(out, t)
 					}
 				}
 			case *ssa.MakeMap:
@@ -167,4 +169,156 @@ func (p *Prog) switchTable(f *ssa.Function, keyT, elemT string) (constTable, boo
 		return constTable{}, false
 	}
 	return constTable{Rows: rows, Where: "switch function " + FuncName(f), Fn: f, Pos: f.Pos()}, true
+}
+
+// globalIndexedRows: the constant elements of a package-level array or slice variable initialised with
+// an (indexed) composite literal and never assigned elsewhere: index → value.
+func (p *Prog) globalIndexedRows(g *ssa.Global) (map[int64]string, bool) {
+	ini := g.Pkg.Func("init")
+	if ini == nil {
+		return nil, false
+	}
+	rows := map[int64]string{}
+	ok := true
+	store := func(base ssa.Value) {
+		for _, rf := range refs(base) {
+			ia, isIA := rf.(*ssa.IndexAddr)
+			if !isIA {
+				continue
+			}
+			k, okk := constInt(ia.Index)
+			for _, r2 := range refs(ia) {
+				if st, isSt := r2.(*ssa.Store); isSt {
+					if !okk {
+						ok = false
+						continue
+					}
+					if s, isS := constString(st.Val); isS {
+						rows[k] = s
+					} else if v, isI := constInt(st.Val); isI {
+						rows[k] = fmt.Sprint(v)
+					} else {
+						ok = false
+					}
+				}
+			}
+		}
+	}
+	p.instrs(ini, func(b *ssa.BasicBlock, i int, in ssa.Instruction) {
+		switch x := in.(type) {
+		case *ssa.IndexAddr:
+			if x.X == ssa.Value(g) { // array global: &g[i] = c
+				k, okk := constInt(x.Index)
+				for _, r2 := range refs(x) {
+					if st, isSt := r2.(*ssa.Store); isSt {
+						if s, isS := constString(st.Val); isS && okk {
+							rows[k] = s
+						} else if v, isI := constInt(st.Val); isI && okk {
+							rows[k] = fmt.Sprint(v)
+						} else {
+							ok = false
+						}
+					}
+				}
+			}
+		case *ssa.Store:
+			if x.Addr == ssa.Value(g) { // slice global = alloc[:] with element stores
+				if sl, isSl := x.Val.(*ssa.Slice); isSl {
+					store(sl.X)
+				} else {
+					ok = false
+				}
+			}
+		}
+	})
+	// nobody else writes the table
+	for _, fn := range p.srcFuncs {
+		if fn == ini {
+			continue
+		}
+		p.instrs(fn, func(b *ssa.BasicBlock, i int, in ssa.Instruction) {
+			if st, isSt := in.(*ssa.Store); isSt {
+				if st.Addr == ssa.Value(g) {
+					ok = false
+				}
+				if ia, isIA := st.Addr.(*ssa.IndexAddr); isIA {
+					if ia.X == ssa.Value(g) {
+						ok = false
+					}
+					if ld, isLd := ia.X.(*ssa.UnOp); isLd && ld.X == ssa.Value(g) {
+						ok = false
+					}
+				}
+			}
+		})
+	}
+	return rows, ok && len(rows) > 0
+}
+
+// indexedTableFunc: f(k K) V / (V, bool) returns table[k] for a constant package-level array or slice;
+// rows with an empty string are absent entries when the function reports them through its bool result.
+func (p *Prog) indexedTableFunc(f *ssa.Function, keyT, elemT string) (constTable, bool) {
+	sig := f.Signature
+	np := sig.Params().Len()
+	if sig.Recv() != nil {
+		np++
+	}
+	if np != 1 || len(f.Params) != 1 || sig.Results().Len() < 1 || sig.Results().Len() > 2 || len(f.Blocks) == 0 {
+		return constTable{}, false
+	}
+	if !typeEnds(f.Params[0].Type(), keyT) || !typeEnds(sig.Results().At(0).Type(), elemT) {
+		return constTable{}, false
+	}
+	var table *ssa.Global
+	var load *ssa.UnOp
+	p.instrs(f, func(b *ssa.BasicBlock, i int, in ssa.Instruction) {
+		ld, ok := in.(*ssa.UnOp)
+		if !ok || ld.Op != token.MUL {
+			return
+		}
+		ia, ok := ld.X.(*ssa.IndexAddr)
+		if !ok || stripConv(ia.Index) != ssa.Value(f.Params[0]) {
+			return
+		}
+		switch x := ia.X.(type) {
+		case *ssa.Global:
+			table, load = x, ld
+		case *ssa.UnOp:
+			if g, ok := x.X.(*ssa.Global); ok {
+				table, load = g, ld
+			}
+		}
+	})
+	if table == nil {
+		return constTable{}, false
+	}
+	// every value returned as result 0 is that load (or the zero value on the not-found paths)
+	okRet := true
+	for _, b := range f.Blocks {
+		ret, ok := b.Instrs[len(b.Instrs)-1].(*ssa.Return)
+		if !ok {
+			continue
+		}
+		for _, o := range origins(ret.Results[0]) {
+			if o == ssa.Value(load) {
+				continue
+			}
+			if c, isC := o.(*ssa.Const); isC && (c.Value == nil || c.Value.ExactString() == `""` || c.Value.ExactString() == "0") {
+				continue
+			}
+			okRet = false
+		}
+	}
+	rows, ok := p.globalIndexedRows(table)
+	if !ok || !okRet {
+		return constTable{}, false
+	}
+	if sig.Results().Len() == 2 {
+		for k, v := range rows {
+			if v == "" {
+				delete(rows, k)
+			}
+		}
+	}
+	return constTable{Rows: rows, Where: "package-level table " + table.Name() + " read through " + FuncName(f), Fn: f, Pos: f.Pos()}, true
 }
